@@ -210,7 +210,7 @@ impl Stats {
                     if im.kind.is_sim() && im.stride_extra > 0 {
                         self.inc("fault:F3-strided-user-container", 1);
                     }
-                    if im.kind.is_sim() && im.yield_rows {
+                    if im.kind.is_harness() && im.yield_rows {
                         self.inc("fault:F1-row-granular-preemption.configured", 1);
                     }
                 }
